@@ -5,6 +5,8 @@ CONSTANTS N = 4
  SkipPropMatch = FALSE
  SkipGater = FALSE
  UseSenderIdx = FALSE
+ SwapEpochFor = "none"
+ SignedGater = FALSE
  InnerProofPolicy = "reject"
  VCBatchPolicy = "none"
 INVARIANTS TypeOK OnlyValidEnter ValidEnters PeerAllOrNothing
